@@ -364,7 +364,7 @@ def single_file_source(lib: Lib, order: list[str], variants: dict[str, str] | No
 
 # ---- worlds --------------------------------------------------------------------------------------
 
-DIRS = ["/proj/macros/v:1", "/proj/SCRIPT", "/proj/SCRIPT_common", "/proj/SCRIPT_common", "/proj/SCRIPT/lib", "/proj/macros", "/proj/macros/sub", "/opt/shared", "/opt/shared/deep", "/opt/shared/deep/er", "/opt/shared/deep/er"]
+DIRS = ["/proj/macros/v:1", "/proj/macros/.hid", "/proj/SCRIPT", "/proj/SCRIPT_common", "/proj/SCRIPT_common", "/proj/SCRIPT/lib", "/proj/macros", "/proj/macros/sub", "/opt/shared", "/opt/shared/deep", "/opt/shared/deep/er", "/opt/shared/deep/er"]
 
 
 class World:
@@ -524,6 +524,12 @@ def gen_world(lib: Lib, rng: random.Random, knobs: dict | None = None) -> World:
                         st = "abs"
                         text = tgt
                         break
+                else:
+                    # a DIRECTORY named like the import under an earlier lookup path is not the file that is looked for
+                    for e in earlier:
+                        if rng.random() < 0.3 and not any(u.startswith(posixpath.join(e, text) + "/") or u == posixpath.join(e, text) for u in used):
+                            w.vfs.mkdir(posixpath.join(e, text))
+                            w.notes.append(f"directory {posixpath.join(e, text)} under an earlier lookup path")
             imports.append((st, text, tgt))
         w.files[paths[i]] = {"macros": file_macros[i], "imports": imports}
     for nm, i in fidx.items():
